@@ -44,16 +44,16 @@ func runC11(c *Ctx) {
 	}
 	// pack / unpack by role
 	var pack, unpack *ssa.Function
-	eachInstr(ssRule, func(_ *ssa.BasicBlock, in ssa.Instruction) {
+	eachInstrG(c.P, ssRule, func(_ *ssa.BasicBlock, in ssa.Instruction) {
 		if ci, ok := in.(ssa.CallInstruction); ok {
-			if cal := ci.Common().StaticCallee(); cal != nil && c.P.IsLibFunc(cal) && cal.Signature.Params().Len() == 2 && typeStr(cal.Signature.Results().At(0).Type()) == "int64" {
+			if cal := ci.Common().StaticCallee(); cal != nil && c.P.IsLibFunc(cal) && !c.P.IsNewHelper(cal) && cal.Signature.Params().Len() == 2 && typeStr(cal.Signature.Results().At(0).Type()) == "int64" {
 				pack = cal
 			}
 		}
 	})
-	eachInstr(rr, func(_ *ssa.BasicBlock, in ssa.Instruction) {
+	eachInstrG(c.P, rr, func(_ *ssa.BasicBlock, in ssa.Instruction) {
 		if ci, ok := in.(ssa.CallInstruction); ok {
-			if cal := ci.Common().StaticCallee(); cal != nil && c.P.IsLibFunc(cal) && cal.Signature.Params().Len() == 1 && typeStr(cal.Signature.Params().At(0).Type()) == "int64" && cal.Signature.Results().Len() == 2 {
+			if cal := ci.Common().StaticCallee(); cal != nil && c.P.IsLibFunc(cal) && !c.P.IsNewHelper(cal) && cal.Signature.Params().Len() == 1 && typeStr(cal.Signature.Params().At(0).Type()) == "int64" && cal.Signature.Results().Len() == 2 {
 				unpack = cal
 			}
 		}
@@ -108,9 +108,9 @@ func runC11(c *Ctx) {
 
 	// ---------- R2 ----------
 	var readNext *ssa.Function
-	eachInstr(rsScan, func(_ *ssa.BasicBlock, in ssa.Instruction) {
+	eachInstrG(c.P, rsScan, func(_ *ssa.BasicBlock, in ssa.Instruction) {
 		if ci, ok := in.(ssa.CallInstruction); ok {
-			if cal := ci.Common().StaticCallee(); cal != nil && c.P.IsLibFunc(cal) && cal.Signature.Recv() != nil && cal.Signature.Results().Len() == 3 {
+			if cal := ci.Common().StaticCallee(); cal != nil && c.P.IsLibFunc(cal) && !c.P.IsNewHelper(cal) && cal.Signature.Recv() != nil && cal.Signature.Results().Len() == 3 {
 				readNext = cal
 			}
 		}
